@@ -19,6 +19,18 @@ func TestSig(t *testing.T) {
 		fmt.Sscanf(v, "%d,%d,%d,%d,%d,%d", &e.Kind, &e.At, &e.Pacing, &e.When, &e.Stall, &e.Code)
 		spec.Enum = &e
 	}
+	if os.Getenv("VSIM_DESCRIBE") != "" {
+		sc := buildScenario(&spec, spec.tape())
+		d := describeScenario(sc)
+		fmt.Println("files:", d["files"])
+		fmt.Println("attempts:", d["attempts"])
+		u := fmt.Sprint(d["units"])
+		if len(u) > 1500 {
+			u = u[:1500]
+		}
+		fmt.Println("units:", u)
+		return
+	}
 	res := RunCase(t, spec)
 	for _, r := range res.Runs {
 		fmt.Println(scheduleSignature(r))
